@@ -207,17 +207,22 @@ def h_key_tree(env):
 
     names = ["address_line_1", "x_y_z", "plain", "two_words"]
     n = Shape("N", [F(nm, i + 1, "int32") for i, nm in enumerate(names)])
-    m = Shape("M", [F("sub_msg", 1, "message", msg="N"), F("rep_msg", 2, "message", "repeated", msg="N"), F("map_msg", 3, "message", "map", key="string", msg="N")])
+    m = Shape("M", [F("sub_msg", 1, "message", msg="N"), F("rep_msg", 2, "message", "repeated", msg="N"), F("map_msg", 3, "message", "map", key="string", msg="N"),
+                    F("retry_count", 4, "int32", group="choice_group"), F("http_status", 5, "string", group="choice_group"), F("plain", 6, "bool", group="choice_group")])
     cat = Catalogue("c19-key-tree", [m, n], [])
     mod = shapes.build_bp(cat)
 
     def leaf(tag):
         return mod.N(**{nm: env.int("%s.%s" % (tag, nm), 1, 63) for nm in names})
 
-    msg = mod.M(sub_msg=leaf("s"), rep_msg=[leaf("r")], map_msg={"k": leaf("m")})
+    # a oneof member with a multi-word name, holding its default or another value
+    member = ["", "retry_count", "http_status", "plain"][env.choose("member", 4)]
+    default = env.choose("member-default", 2) if member else 1
+    kw = {member: {"retry_count": 0, "http_status": "", "plain": False}[member] if default else {"retry_count": 7, "http_status": "x", "plain": True}[member]} if member else {}
+    msg = mod.M(sub_msg=leaf("s"), rep_msg=[leaf("r")], map_msg={"k": leaf("m")}, **kw)
     for cname, cas, fn in (("camel", betterproto.Casing.CAMEL, _casing.camel_case), ("snake", betterproto.Casing.SNAKE, _casing.snake_case)):
         d = msg.to_dict(casing=cas)
-        top = {fn(x): x for x in ("sub_msg", "rep_msg", "map_msg")}
+        top = {fn(x): x for x in ("sub_msg", "rep_msg", "map_msg") + ((member,) if member else ())}
         env.check("top-level-keys-in-requested-casing[%s]" % cname, sorted(d) == sorted(top), "%r" % (sorted(d),))
         if sorted(d) != sorted(top):
             continue
@@ -228,6 +233,7 @@ def h_key_tree(env):
         if cname == "snake":
             back = mod.M().from_dict(d)
             env.check("snake_case-keys-map-back-at-every-level", sym.sym_and(back == msg, bytes(back) == bytes(msg)))
+            env.check("selected-member-survives-the-dict-round-trip", betterproto.which_one_of(back, "choice_group")[0] == member)
 
 
 def units(tier):
